@@ -40,6 +40,9 @@ class FortranGen:
         self.types = {}
         self.exact = set()
         self.used_funcs = set()
+        self.recent_conds = []
+        self.n_shrink = 0
+        self.n_condpair = 0
         self.shape = []
 
     def pick(self, seq, label=""):
@@ -95,13 +98,20 @@ class FortranGen:
                 return Pow(Const(self.pick([-1.5, -2.0, -0.5, -7.0], "nb")), 2 + t.draw(2, "pw"))
             return Pow(self.g_real(D, depth - 1, counters), 2 + t.draw(2, "pw"))
         if k == 4:
+            if self.recent_conds and t.chance(0.35, "reusecond"):
+                # the same condition as an earlier conditional expression (it must be evaluated again:
+                # its variables may have changed in between)
+                c = self.recent_conds[t.draw(len(self.recent_conds), "rc")]
+                return IfX(c, self.g_real(D, depth - 1, counters), self.g_real(D, depth - 1, counters))
             if t.chance(0.35, "nestedif"):
                 # a conditional expression nested in a branch of another one
                 inner = IfX(self.g_cond(D, 0), self.g_real(D, 0, counters), self.g_real(D, 0, counters))
                 other = self.g_real(D, 0, counters)
                 return IfX(self.g_cond(D, 0), inner, other) if t.chance(0.5, "nestthen") else \
                     IfX(self.g_cond(D, 0), other, inner)
-            return IfX(self.g_cond(D, 0), self.g_real(D, depth - 1, counters), self.g_real(D, depth - 1, counters))
+            c = self.g_cond(D, 0)
+            self.recent_conds.append(c)
+            return IfX(c, self.g_real(D, depth - 1, counters), self.g_real(D, depth - 1, counters))
         if k == 5:
             a = self.pick(sorted(arrs), "a")
             n = self.types[a][1]
@@ -198,7 +208,9 @@ class FortranGen:
                      0.6,                    # 12 len()
                      0.8,                    # 13 elementwise_abs on a user type
                      1.4,                    # 14 array -> array built-ins (abs, transpose, matmul)
-                     2.0 if "<state>v" in self.types else 0]   # 15 second user type "v"
+                     2.0 if "<state>v" in self.types else 0,   # 15 second user type "v"
+                     1.2 if "<state>r" in self.types else 0,   # 16 two conditional expressions, same condition
+                     1.0 if "<state>r" in self.types and depth >= 2 else 0]   # 17 array overwritten with other length
                 k = t.weighted(w, "opkind")
                 op = self.gen_op(k, D, depth)
                 if op is None:
@@ -401,10 +413,17 @@ class FortranGen:
             form = t.weighted([2, 2 if n in (2, 4) else 0, 1.5 if n in (2, 4) else 0, 2.5], "aform")
             if form == 3:
                 # whole-array arithmetic assigned to an array variable; elements are read later
-                tgt = self.new_name([x for x in ARR_TEMPS if x != a], ("arr", n), D, reuse_p=0.0)
-                if tgt is None or tgt in D:
-                    return None
-                others = [x for x in arrs if self.types[x][1] == n]
+                bigger = [x for x in arrs if x != a and self.types[x][1] != n]
+                if bigger and depth >= 2 and t.chance(0.4, "shrink"):
+                    # an array variable that already holds storage of another length is overwritten
+                    tgt = self.pick(bigger, "shr")
+                    self.types[tgt] = ("arr", n)
+                    self.n_shrink += 1
+                else:
+                    tgt = self.new_name([x for x in ARR_TEMPS if x != a], ("arr", n), D, reuse_p=0.0)
+                    if tgt is None or tgt in D:
+                        return None
+                others = [x for x in arrs if self.types[x][1] == n and x != tgt] or [a]
                 e = [Bin("+", Var(a), Var(self.pick(others, "wb"))),
                      Bin("*", Const(self.pick([2.0, 0.5, -1.0], "wc")), Var(a)),
                      Bin("-", Var(a), Bin("*", Var("<dt>"), Var(self.pick(others, "wb2"))))][t.draw(3, "wform")]
@@ -450,9 +469,68 @@ class FortranGen:
                     kws.reverse()
                 return ("call", (tgt,), Call("<builtin>matmul", [Var(a), Var(a)], kws), self.mode())
             return ("call", (tgt,), Call("<builtin>matmul", [Var(a), Var(a), Const(c), Const(r)]), self.mode())
+        if k == 17:
+            free = [x for x in ARR_TEMPS if x not in self.types or x not in D]
+            if len(free) < 2:
+                return None
+            A, B = free[0], free[1]
+            n1 = 3 + t.draw(2, "n1")
+            n2 = n1 - 1 if t.chance(0.6, "shorter") else n1 + 1
+            self.types[A] = ("arr", n2)      # its final length
+            self.types[B] = ("arr", n2)
+            self.n_shrink += 1
+            D.add(A)
+            D.add(B)
+            e = [Bin("+", Var(B), Var(B)), Bin("*", Const(2.0), Var(B)),
+                 Bin("-", Var(B), Bin("*", Var("<dt>"), Var(B)))][t.draw(3, "shrform")]
+            return [("call", (A,), Call("<builtin>array", [Const(n1)]), self.mode()),
+                    ("assign", A, Var("i"), Bin("+", Var("i"), Const(0.5)), [("i", Const(0), Const(n1))], self.mode()),
+                    ("call", (B,), Call("<builtin>array", [Const(n2)]), self.mode()),
+                    ("assign", B, Var("i"), Bin("*", Var("i"), Const(1.5)), [("i", Const(0), Const(n2))], self.mode()),
+                    ("assign", A, None, e, [], self.mode()),
+                    ("assign", "<state>r", None,
+                     Bin("+", Sub(A, Const(0)), Bin("*", Const(2.0), Sub(A, Const(n2 - 1)))), [], self.mode())]
+        if k == 16:
+            # two conditional expressions with the *same* condition, and a write to the condition's
+            # variable between them: the condition must be evaluated twice
+            thr = Const(self.pick([1.5, 2.5, 3.5, 4.5], "thr"))
+            c = Cmp(self.pick(["<", ">=", ">", "<="], "cpop"), Var("<state>n"), thr)
+            cands = [x for x in SC_TEMPS if self.cls.get(x, "inexact") == "inexact"]
+            r1 = self.new_name(cands, "real", D)
+            if r1 is None:
+                return None
+            self.cls[r1] = "inexact"
+            D.add(r1)
+            self.n_condpair += 1
+            a1, b1, a2, b2 = [Const(self.pick([1.0, 2.0, -3.0, 0.5, 7.0, -0.25], "cpv")) for _ in range(4)]
+            if a1.v == b1.v:
+                b1 = Const(a1.v + 1.0)
+            if a2.v == b2.v:
+                b2 = Const(a2.v + 1.0)
+            return [("assign", r1, None, IfX(c, a1, b1), [], self.mode()),
+                    ("assign", "<state>n", None, Bin("+", Var("<state>n"), Const(1.0)), [], self.mode()),
+                    ("assign", "<state>r", None, Bin("+", IfX(c, a2, b2), Bin("*", Const(10.0), Var(r1))), [], self.mode())]
         if k == 15:
             vs_ = self.of(D, "utv")
-            form = t.weighted([3, 3 if "kv" in D else 0, 2, 2, 1.5 if "v2" in D else 0], "vform")
+            form = t.weighted([3, 3 if "kv" in D else 0, 2, 2, 1.5 if "v2" in D else 0, 2.5], "vform")
+            if form == 5:
+                # the same built-ins that are also applied to values of the other user type
+                src = self.pick(vs_, "bsrc") if vs_ else "<state>v"
+                which = t.draw(3, "vbuiltin")
+                if which == 2:
+                    self.types["v2"] = "utv"
+                    if src == "v2":
+                        src = "<state>v"
+                    D.add("v2")
+                    return ("call", ("v2",), Call("<builtin>elementwise_abs", [Var(src)]), self.mode())
+                cands = [n for n in SC_TEMPS if self.cls.get(n, "inexact") == "inexact"]
+                tgt = "<state>r" if ("<state>r" in self.types and t.chance(0.6, "vrd")) else self.new_name(cands, "real", D)
+                if tgt is None:
+                    return None
+                self.cls[tgt] = "inexact"
+                D.add(tgt)
+                fn = "<builtin>norm_2" if which == 0 else "<builtin>len"
+                return ("call", (tgt,), Call(fn, [Var(src)]), self.mode())
             if form == 0:
                 self.types["kv"] = "utv"
                 self.used_v = True
@@ -532,6 +610,7 @@ class FortranGen:
             with t.span("phase"):
                 D = set(persistent)
                 self.counter_range = {}
+                self.recent_conds = []
                 nxt = names[t.draw(len(names), "next")] if t.chance(0.5, "nextrand") else names[(pi + 1) % len(names)]
                 ops = []
                 if t.chance(0.8, "count"):
@@ -590,6 +669,8 @@ class FortranGen:
         sc.func_alias = {}
         sc.shape_sig = list(self.shape)
         sc.N = self.N
+        sc.n_shrink = self.n_shrink
+        sc.n_condpair = self.n_condpair
         sc.struct = self.struct
         sc.M = self.M
         sc.has_v = any(("<state>v" in (op[1],) if op[0] == "assign" else False) or
